@@ -157,6 +157,15 @@ def _handle_ConnectionUp (event):
     _update_tree()
 
 
+def _handle_PortStatus (event):
+  if event.added or event.deleted:
+    # A new port starts out with the switch's defaults, whatever we did to
+    # an earlier port of the same number (and it may be on a link we still
+    # know about)
+    _prev[event.dpid].pop(event.port, None)
+    _update_tree()
+
+
 def _handle_LinkEvent (event):
   # When links change, update spanning tree
 
@@ -279,6 +288,7 @@ def launch (no_flood = False, hold_down = False):
 
   def start_spanning_tree ():
     core.openflow.addListenerByName("ConnectionUp", _handle_ConnectionUp)
+    core.openflow.addListenerByName("PortStatus", _handle_PortStatus)
     core.openflow_discovery.addListenerByName("LinkEvent", _handle_LinkEvent)
     log.debug("Spanning tree component ready")
   core.call_when_ready(start_spanning_tree, "openflow_discovery")
